@@ -27,3 +27,72 @@ Theorem C11_success_only_from_final_messages : forall q H s x ty pl rnd,
   In evSuccess (sr_events (smp_receive q H s x ty pl rnd)) -> ty = c_tlvTypeSMP3 \/ ty = c_tlvTypeSMP4.
 Proof. exact success_only_from_msg3_or_msg4. Qed.
 Print Assumptions C11_success_only_from_final_messages.
+
+(* ---- on the SMP model itself (exponent representation, arithmetic modulo the group order q > 1), for every choice of
+   exponents and every hash function: everything an honest party generates passes the peer's checks ... ---- *)
+From OTR Require Import Proto.SmpHonest Proto.SmpInst.
+Theorem C11_generated_exponent_proof_verifies : forall q, 1 < q -> forall H r a ix,
+  let '(c, d) := genZKP q H r a ix in verifyZKP q H d (el_exp q g1e a) c ix = true.
+Proof. exact zkp1_ok. Qed.
+Print Assumptions C11_generated_exponent_proof_verifies.
+
+Theorem C11_generated_PQ_proof_verifies : forall q, 1 < q -> forall H e2 e3 r4 r5 r6 y ix,
+  let g2 := EKnown false e2 in let g3 := EKnown false e3 in
+  let pb := el_exp q g3 r4 in
+  let qb := el_mul q (el_exp q g1e r4) (el_exp q g2 y) in
+  let cp := H ix [el_exp q g3 r5; el_mul q (el_exp q g1e r5) (el_exp q g2 r6)] in
+  verifyZKP2 q H g2 g3 (subq q r5 (r4 * cp)) (subq q r6 (y * cp)) pb qb cp ix = true.
+Proof. exact zkp2_ok. Qed.
+Print Assumptions C11_generated_PQ_proof_verifies.
+
+Theorem C11_generated_R_proof_verifies : forall q, 1 < q -> forall H e a3 r7 ix,
+  let qaqb := EKnown false e in
+  let ra := el_exp q qaqb a3 in
+  let cr := H ix [el_exp q g1e r7; el_exp q qaqb r7] in
+  verifyZKP4 q H cr (el_exp q g1e a3) (subq q r7 (a3 * cr)) qaqb ra ix = true.
+Proof. exact zkp4_ok. Qed.
+Print Assumptions C11_generated_R_proof_verifies.
+
+(* ... and with equal secrets the final comparison of BOTH sides holds (Ra^b3 = Pa/Pb for the responder, Rb^a3 = Pa/Pb
+   for the initiator), whatever blinding exponents were drawn *)
+Theorem C11_equal_secrets_pass_both_final_checks : forall q, 1 < q -> forall e2 e3 a3 b3 r4a r4b x y,
+  eqm q e3 (a3 * b3) -> x = y ->
+  let g2 := EKnown false e2 in let g3 := EKnown false e3 in
+  let pa := el_exp q g3 r4a in let qa := el_mul q (el_exp q g1e r4a) (el_exp q g2 x) in
+  let pb := el_exp q g3 r4b in let qb := el_mul q (el_exp q g1e r4b) (el_exp q g2 y) in
+  exists qaqb papb, el_div q qa qb = Some qaqb /\ el_div q pa pb = Some papb /\
+    el_eqb q (el_exp q (el_exp q qaqb a3) b3) papb = true /\
+    el_eqb q (el_exp q (el_exp q qaqb b3) a3) papb = true.
+Proof. exact final_equations_both. Qed.
+Print Assumptions C11_equal_secrets_pass_both_final_checks.
+
+(* a complete run of the two state machines of the model with the real group order: equal secrets end in success on
+   both sides, different secrets in failure *)
+Definition c11A := {| x_encrypted := true; x_v3 := true; x_ourFp := 1; x_theirFp := 2; x_ssid := (5, 6) |}.
+Definition c11B := {| x_encrypted := true; x_v3 := true; x_ourFp := 2; x_theirFp := 1; x_ssid := (5, 6) |}.
+Definition c11_run (secA secB : bytes) : list N * list N :=
+  let a1 := smp_user_i smp_init c11A (SStart [] secA) [3; 5; 7; 11] in
+  match sr_reply a1 with
+  | (ty1, pl1) :: _ =>
+      let b1 := smp_receive_i (smp_ensure smp_init) c11B ty1 pl1 [] in
+      let b2 := smp_user_i (sr_st b1) c11B (SProvide secB) [13; 17; 19; 23; 29; 31; 37] in
+      match sr_reply b2 with
+      | (ty2, pl2) :: _ =>
+          let a2 := smp_receive_i (smp_ensure (sr_st a1)) c11A ty2 pl2 [41; 43; 47; 53] in
+          match sr_reply a2 with
+          | (ty3, pl3) :: _ =>
+              let b3 := smp_receive_i (smp_ensure (sr_st b2)) c11B ty3 pl3 [59] in
+              match sr_reply b3 with
+              | (ty4, pl4) :: _ => (sr_events b3, sr_events (smp_receive_i (smp_ensure (sr_st a2)) c11A ty4 pl4 []))
+              | [] => (sr_events b3, [])
+              end
+          | [] => ([], sr_events a2)
+          end
+      | [] => ([], [])
+      end
+  | [] => ([], [])
+  end.
+Example C11_honest_run_equal_secrets : c11_run [1; 2; 3] [1; 2; 3] = ([evSuccess], [evSuccess]).
+Proof. vm_compute; reflexivity. Qed.
+Example C11_honest_run_different_secrets : fst (c11_run [1; 2; 3] [1; 2; 4]) = [evFailure].
+Proof. vm_compute; reflexivity. Qed.
